@@ -183,7 +183,7 @@ func C11CLI(r *simkit.Run) {
 	}
 	actions := t.Range("actions", 2, 7)
 	for a := 0; a < actions && !r.Failed(); a++ {
-		switch t.Weighted("action", 5, 2, 2, 1, 1, 2, 3) {
+		switch t.Weighted("action", 5, 2, 2, 1, 1, 2, 3, 2) {
 		case 1:
 			c.add(t, c.maxIdx()+1+t.Draw("gap", 2), false, t.Chance("bad-stmt", 1, 4))
 			r.Logf("add newer -> %s", c.dirDesc())
@@ -239,6 +239,29 @@ func C11CLI(r *simkit.Run) {
 			}
 			r.Logf("fix files=%v", fixed)
 			r.Sample("operator fixes the failing statements and re-hashes")
+			continue
+		case 7: // the process dies inside `migrate apply --tx-mode none`: a partial revision without an error text
+			points := []string{"exec:after-stmt-write", "exec:before-stmt", "exec:after-stmt", "exec:after-init-write"}
+			p := points[t.Draw("crash-point", len(points))]
+			occ := 1 + t.Draw("crash-occurrence", 3)
+			order := []string{"linear", "linear-skip", "non-linear"}[t.Draw("order", 3)]
+			res := w.Atlas([]string{fmt.Sprintf("VERIF_CRASH_AT=%s:%d", p, occ)}, "migrate", "apply", "--dir", w.DirURL(), "--url", w.URL(), "--tx-mode", "none", "--exec-order", order, "--allow-dirty")
+			after := w.Observe()
+			r.Logf("crash@%s#%d -> %s effects=%s revs=[%s]", p, occ, res.Class(), EffectVector(after, c.files), revsDesc(modelRevsOf(after)))
+			r.Sample("`migrate apply --tx-mode none --exec-order %s --allow-dirty` is killed at %s (hit %d) -> %s; history [%s]", order, p, occ, res.Class(), revsDesc(modelRevsOf(after)))
+			if res.Panicked {
+				r.Fail(propC11, "panic", "panic/apply", "migrate apply panicked: %s", res.ErrLine())
+				return
+			}
+			if res.Killed {
+				r.Fired("process-killed-in-apply")
+				w.ExpireLease()
+				for _, rv := range after.Revs {
+					if rv.Applied != rv.Total && rv.Error == "" {
+						r.Probe("partial-revision-without-error")
+					}
+				}
+			}
 			continue
 		case 6: // migrate set
 			before := w.Observe()
